@@ -12,6 +12,8 @@ T2 == {"t1", "t2"}
 G2 == {1, 2}
 NoSamples == {}
 NoScheds == {}
+NoAmmos == {}
+A2 == {"a1", "a2"}
 Sch2 == {1, 2}
 Sch3 == {1, 2, 3}
 S2 == {"s1", "s2"}
@@ -38,9 +40,21 @@ PerInst(k, n, p) == [kind |-> k, shared |-> FALSE, inst |-> n, perinst |-> TRUE,
                      klo |-> SM!CountLo(p), khi |-> SM!CountHi(p),
                      startup |-> <<2, n - 2>>, shots |-> n * SM!CountHi(p) + n]
 PerInstRuns == <<PerInst("http", 3, Profiles[1]), PerInst("http", 8, Profiles[2]), PerInst("grpc", 5, Profiles[1])>>
-Plain(r) == r @@ [perinst |-> FALSE, rps |-> <<>>, klo |-> 0, khi |-> 0, startup |-> <<r.inst>>]
+NoDiscard == [discard |-> FALSE, delay_ms |-> 0, queue |-> 0]
+Plain(r) == r @@ [perinst |-> FALSE, rps |-> <<>>, klo |-> 0, khi |-> 0, startup |-> <<r.inst>>] @@ NoDiscard
 SharedRuns == SetToSeq({r \in RunMatrix : r.shared => HasSharedClient(r.kind)})
-Runs == [i \in 1..Len(SharedRuns) |-> Plain(SharedRuns[i])] \o PerInstRuns
+(* discard runs: discard_overflow: true, a SHARED rps list [once, const] and guns whose first shot takes 2.2 s, so
+   that every instance is >= 2 s behind the schedule when it comes back: the rest of the `once` tokens and the
+   first `const` tokens are DISCARDED (the engine gives the acquired ammo back without shooting), later tokens are
+   shot.  Providers that recycle ammo objects through a pool: grpc/json and the generic json provider
+   (small ammo queue, so that objects really are recycled).  Only lower bounds on lateness are used. *)
+DiscardRun(k, n, q) == [kind |-> k, shared |-> FALSE, inst |-> n, perinst |-> FALSE,
+                        rps |-> <<[ctor |-> "once", times |-> 40, ops |-> 0, dur_ms |-> 0],
+                                  [ctor |-> "const", times |-> 0, ops |-> 200, dur_ms |-> 2600]>>, klo |-> 0, khi |-> 0, startup |-> <<n>>,
+                        shots |-> 700, discard |-> TRUE, delay_ms |-> 2200, queue |-> q]
+DiscardRuns == <<DiscardRun("grpc", 6, 0), DiscardRun("json", 4, 16)>>
+Runs == [i \in 1..Len(SharedRuns) |-> Plain(SharedRuns[i])]
+        \o [i \in 1..Len(PerInstRuns) |-> PerInstRuns[i] @@ NoDiscard] \o DiscardRuns
 GenInit == Init /\ PrintT(<<"VERIF", ToJson([runs |-> Runs])>>)
 GenNext == UNCHANGED vars
 =============================================================================
